@@ -448,6 +448,8 @@ Definition corr_ok (c : case) : bool :=
           strs_eqb (map r_fragname log) (k_added c) &&
           (* the grown molecule, with networkx' node and adjacency orders *)
           GraphOps.graph_eqb (to_nx m) pre &&
+          (* hypothesis of the valence corollary (Sample/SampleValence.v): no 'rs_isomer' on the transcript *)
+          match car with Some g1 => forallb (fun n => negb (ahas (S "rs_isomer") (na n))) g1 | None => true end &&
           (* hydrogens (Hydro model; aromaticity transcript with its contract), sort, names *)
           match finalise_nx (k_aa c) (to_nx m) car with
           | Ok f => GraphOps.graph_eqb f final
